@@ -406,6 +406,13 @@ impl Task {
         let mut cx = Context::from_waker(&self.waker);
         fut.poll(&mut cx)
     }
+    /// Run one poll-shaped closure with this task's waker, clearing the wake flag first.
+    pub fn poll_with<T>(&mut self, f: impl FnOnce(&mut Context<'_>) -> Poll<T>) -> Poll<T> {
+        self.flag.0.store(false, Ordering::SeqCst);
+        self.polls += 1;
+        let mut cx = Context::from_waker(&self.waker);
+        f(&mut cx)
+    }
     /// Poll while woken, until pending-and-quiet or ready. `limit` guards against livelock.
     pub fn run_until_stalled<F: Future + ?Sized>(&mut self, mut fut: Pin<&mut F>, limit: usize) -> Poll<F::Output> {
         let mut n = 0;
